@@ -156,7 +156,9 @@ fn build(pool: &Pool, c: &Case) -> (Vec<u8>, Vec<u8>) {
             declared = Some((signal.len() + extra) as u64);
         }
         Mutation::RootSet { with_root_at, others, near_miss } => {
-            let mut set: Vec<BigUint> = (0..(*others % 5)).map(|i| BigUint::from(777u32 + i as u32)).collect();
+            // mostly 0..4 other members; one in eight sets is large (hundreds of roots)
+            let n_others = if *others >= 224 { 100 + (*others as u32 - 224) * 20 } else { (*others % 5) as u32 };
+            let mut set: Vec<BigUint> = (0..n_others).map(|i| BigUint::from(777u32 + i)).collect();
             if *near_miss {
                 set.push((&pool.root + 1u32) % p());
                 set.push((&pool.root + p() - 1u32) % p());
